@@ -1,21 +1,34 @@
 #!/usr/bin/env python3
 """Writes /verif/seeded/INDEX.md: one row per kept seeded change (what it breaks, what it needs to
 manifest, which rule catches it, whether the rule had to be added/strengthened first)."""
-import json, glob, re
+import json, glob, re, os, sys
+# optional: the output of tools/seed_regress.sh (default /tmp/seedreg.txt) gives the CURRENT verdict
+now = {}
+reg = sys.argv[1] if len(sys.argv) > 1 else '/tmp/seedreg.txt'
+if os.path.exists(reg):
+    for line in open(reg):
+        m = re.match(r'(C\d+-\d+) (detected|MISSED|STALE)(.*)', line)
+        if m:
+            now[m.group(1)] = m.group(2) + m.group(3).rstrip()
 rows = []
 for f in sorted(glob.glob('/verif/seeded/*/meta.json'), key=lambda p: (p.split('/')[-2].split('-')[0], int(p.split('/')[-2].split('-')[1]))):
     m = json.load(open(f))
     res = m['static_check_result']
-    late = bool(re.search(r'after strengthening|missed before|Missed before|rule added after|only after|added after', res))
+    late = bool(re.search(r'after strengthening|missed before|Missed before|rule added after|only after|added after|MISSED at arrival', res))
+    cur = now.get(m['id'], '')
+    if cur:
+        m['static_check_now'] = cur
+        json.dump(m, open(f, 'w'), indent=1, ensure_ascii=False)
+    cur = m.get('static_check_now', '')
     patch = open(f.replace('meta.json', 'patch.diff')).read()
     files = sorted(set(re.findall(r'^\+\+\+ b/(\S+)', patch, re.M)))
-    rows.append((m['id'], ', '.join(x.split('/')[-1] for x in files), m.get('needs_to_manifest', '').replace('|', '/'), res.replace('|', '/'), 'late' if late else ''))
+    rows.append((m['id'], ', '.join(x.split('/')[-1] for x in files), m.get('needs_to_manifest', '').replace('|', '/'), res.replace('|', '/'), cur, 'late' if late else ''))
 with open('/verif/seeded/INDEX.md', 'w') as o:
     o.write('# Seeded changes kept as regression material\n\n')
     o.write('Each was produced by an independent sub-agent that saw only the property text and a scratch worktree, compiles, passes the pinned tests of the packages it touches, and has a demo test that fails with it and passes without it (`tools/seed_eval.sh`). `tools/seed_regress.sh` re-runs all of them against the current rules. "late" = missed by the rules that existed when the seed arrived; the rule was then added or generalised.\n\n')
-    o.write('| seed | file(s) | needs to manifest | static result | |\n|---|---|---|---|---|\n')
+    o.write('| seed | file(s) | needs to manifest | static result when kept | current (last seed_regress) | |\n|---|---|---|---|---|---|\n')
     for r in rows:
         o.write('| ' + ' | '.join(r) + ' |\n')
-    n = len(rows); l = sum(1 for r in rows if r[4])
-    o.write(f'\n{n} seeds, {l} of them caught only after a rule was added or generalised, {n-l} caught by the rules as they were.\n')
+    n = len(rows); l = sum(1 for r in rows if r[5]); miss = sum(1 for r in rows if r[4].startswith('MISSED'))
+    o.write(f'\n{n} seeds, {l} of them missed by the rules as they were when the seed arrived, {n-l} caught at arrival; {miss} not reported by the current rules.\n')
 print(len(rows))
